@@ -242,7 +242,8 @@ class MatrixDFTExecutor:
         if not isinstance(shift, Iterable):
             shift = (shift, shift)
 
-        return (Q, samples_in, samples_out, shift, fwd)
+        # the bases are built at config.precision, so it is part of their identity
+        return (Q, samples_in, samples_out, shift, fwd, config.precision)
 
     def dft2(self, ary, Q, samples_out, shift=(0, 0)):
         """Compute the two dimensional Discrete Fourier Transform of a matrix.
@@ -362,7 +363,7 @@ class MatrixDFTExecutor:
         """Set up the basis matricies for given sampling parameters."""
         # broadcast sampling and shifts
 
-        Q, shp, samples, shift, fwd = key
+        Q, shp, samples, shift, fwd, _ = key
 
         Qn, Qm = Q
         # conversion here to Soummer's notation
